@@ -23,6 +23,9 @@ IN_FUNCTION_ONLY = ["yield 1", "x = yield", "yield from it", "x = [(yield 2)]", 
 ILLEGAL = {
     "break": "break", "continue": "continue", "return": "return 1",
     "two-stars": "*a, *b = [1, 2]", "two-stars-nested": "x, (*y, z, *w) = 1, [2, 3]", "two-stars-for": "for *a, *b in []:\n    pass",
+    # the same rule for the targets of comprehension clauses (every kind of comprehension, any clause, nested patterns)
+    "two-stars-listcomp": "q = [0 for *a, *b in []]", "two-stars-genexp": "q = list(h for h, (*x, m, *y) in [])",
+    "two-stars-dictcomp": "q = {k: 1 for row in [] for [*k, *v] in row}", "two-stars-setcomp": "print({0 for *a, *b in []})",
 }
 
 BASES = [
